@@ -268,6 +268,11 @@ func (s *CAStore) addToMemoryCache(
 	}
 
 	data := tmpWriter.Bytes()
+	// The reservation was made for size bytes and Remove gives back len(data):
+	// an entry of any other length would unbalance the cache's accounting.
+	if uint64(len(data)) != size {
+		return fmt.Errorf("blob length %d does not match reserved size %d", len(data), size)
+	}
 	// Entries are served from memory before the drain re-verifies them on
 	// disk, so the digest must be checked before the entry becomes visible.
 	if err := s.verify(bytes.NewReader(data), name); err != nil {
